@@ -34,7 +34,7 @@ def stepOk (cur : Option ArgVal) : Option (Fin 8) → Bool
   | some _ => cur.isNone
   | none => decide (cur.getD (.bool true) = .bool true)
 
-theorem lookup_mem {β : Type} (l : List (String × β)) (k : String) (v : β) (h : l.lookup k = some v) : (k, v) ∈ l := by
+theorem C14S_lookup_mem {β : Type} (l : List (String × β)) (k : String) (v : β) (h : l.lookup k = some v) : (k, v) ∈ l := by
   induction l with
   | nil => simp at h
   | cons p rest ih =>
@@ -66,14 +66,14 @@ theorem style_keys_eq : styleTable.map Prod.fst = styleNames.map Prod.fst := by 
 
 theorem fg_lookup (l : String) (code : Nat) (h : fgTable.lookup l = some code) :
     ∃ c, colourIndex 30 (.int code) = some c ∧ 30 + c.val = code := by
-  have := fg_codes _ (lookup_mem _ _ _ h)
+  have := fg_codes _ (C14S_lookup_mem _ _ _ h)
   simp only at this
   cases hc : colourIndex 30 (.int (code : Nat)) with
   | none => rw [hc] at this; simp at this
   | some c => rw [hc] at this; simp at this; exact ⟨c, rfl, this⟩
 theorem bg_lookup (l : String) (code : Nat) (h : bgTable.lookup l = some code) :
     ∃ c, colourIndex 40 (.int code) = some c ∧ 40 + c.val = code := by
-  have := bg_codes _ (lookup_mem _ _ _ h)
+  have := bg_codes _ (C14S_lookup_mem _ _ _ h)
   simp only at this
   cases hc : colourIndex 40 (.int (code : Nat)) with
   | none => rw [hc] at this; simp at this
@@ -97,7 +97,7 @@ theorem style_tail (kw : Kw) (l : String) :
   cases h : styleNames.lookup l with
   | none => simp
   | some k =>
-    have := (style_names_ok _ (lookup_mem _ _ _ h)).1
+    have := (style_names_ok _ (C14S_lookup_mem _ _ _ h)).1
     simp only at this
     subst this
     simp only [Option.isSome_some, if_true, Option.map_some, stepOk, view, newVal_none]
@@ -267,7 +267,7 @@ theorem styleName_iff (k : String) : isStyleName k = true ↔ ∃ j : Key, j.nam
     cases hl : styleTable.lookup k with
     | none => rw [hl] at h; simp at h
     | some n =>
-      have := lookup_mem _ _ _ hl
+      have := C14S_lookup_mem _ _ _ hl
       simp only [styleTable, List.mem_cons, Prod.mk.injEq, List.mem_nil_iff, or_false] at this
       rcases this with ⟨rfl, _⟩ | ⟨rfl, _⟩ | ⟨rfl, _⟩ | ⟨rfl, _⟩ | ⟨rfl, _⟩ | ⟨rfl, _⟩
       · exact ⟨.bold, by decide⟩
@@ -384,12 +384,12 @@ theorem colourBlock_spec (table : List (String × Nat)) (base : Int) (key : Stri
 theorem fg_H1 : ∀ l code, fgTable.lookup l = some code → ∃ c, colourIndex 30 (.int (code : Nat)) = some c := by
   intro l code h
   have : ∀ p ∈ fgTable, (colourIndex 30 (.int (p.2 : Nat))).isSome = true := by decide
-  have := this _ (lookup_mem _ _ _ h)
+  have := this _ (C14S_lookup_mem _ _ _ h)
   exact Option.isSome_iff_exists.mp this
 theorem bg_H1 : ∀ l code, bgTable.lookup l = some code → ∃ c, colourIndex 40 (.int (code : Nat)) = some c := by
   intro l code h
   have : ∀ p ∈ bgTable, (colourIndex 40 (.int (p.2 : Nat))).isSome = true := by decide
-  have := this _ (lookup_mem _ _ _ h)
+  have := this _ (C14S_lookup_mem _ _ _ h)
   exact Option.isSome_iff_exists.mp this
 theorem fg_H2 : ∀ i : Int, fgTable.any (fun p => (p.2 : Int) == i) = (colourIndex 30 (.int i)).isSome := by
   intro i
@@ -595,7 +595,7 @@ theorem posName_wf (lower : String → String) (a : ArgVal) (j : Key) (oc : Opti
           rw [hl] at h; simp at h
           obtain ⟨h1, h2⟩ := h
           subst h1; subst h2
-          have := (style_names_ok _ (lookup_mem _ _ _ hl)).2
+          have := (style_names_ok _ (C14S_lookup_mem _ _ _ hl)).2
           simp only at this
           simp [this.1, this.2]
   | _ => simp [posName] at h
